@@ -35,6 +35,8 @@ def run(ctx):
     check_parsers_do_not_panic(ctx, f)
     ctx.rule("R-CHK", "every success path passes the required step")
     K.check_attr_values_unescaped(ctx, f)
+    ctx.rule("R-GRD", "success requires the guard literal")
+    K.check_attr_ascii_after_unescape(ctx, f)
     K.check_scheme_tests_ignore_case(ctx, f)
     from props import C09
     C09.check_text_impls_escape(ctx, f)
